@@ -53,12 +53,29 @@ def _cls(table, name):
     return getattr(importlib.import_module(mod), attr)
 
 
+def make_predicate(spec):
+    """Stateless include predicates (evaluated on glyph objects by the filter and
+    on glyph snapshots by the scope oracle, see gen14.included_names)."""
+    if spec == "has_contours":
+        return lambda g: len(g) > 0
+    if spec == "has_components":
+        return lambda g: bool(g.components)
+    if spec == "has_anchors":
+        return lambda g: bool(g.anchors)
+    if spec.startswith("name_startswith:"):
+        prefix = spec.split(":", 1)[1]
+        return lambda g: g.name.startswith(prefix)
+    raise ValueError(spec)
+
+
 def make_filter(desc):
     kw = dict(desc.get("kwargs", {}))
     if "include" in desc:
         kw["include"] = list(desc["include"])
     if "exclude" in desc:
         kw["exclude"] = list(desc["exclude"])
+    if "include_pred" in desc:
+        kw["include"] = make_predicate(desc["include_pred"])
     if "pre" in desc:
         kw["pre"] = desc["pre"]
     return _cls(FILTER_CLASSES, desc["cls"])(*desc.get("args", []), **kw)
